@@ -11,6 +11,7 @@ package main
 import (
 	"fmt"
 	"go/token"
+	"go/types"
 	"os"
 	"os/exec"
 	"path/filepath"
@@ -254,6 +255,34 @@ func lenAtLeast(w *World, x *T, n int64, p *Path) (bool, string) {
 	x = stripConv(x)
 	if x.Op == "str" {
 		return int64(len(x.S)) >= n, "constant string"
+	}
+	// an array (or a slice of a whole array): its length is part of its type
+	if x.Ty != nil {
+		t := x.Ty
+		if pt, ok := t.Underlying().(*types.Pointer); ok {
+			t = pt.Elem()
+		}
+		if at, ok := t.Underlying().(*types.Array); ok {
+			return at.Len() >= n, fmt.Sprintf("array of %d elements", at.Len())
+		}
+	}
+	if sl, ok := staticLen(x); ok {
+		return sl >= n, fmt.Sprintf("slice of a whole array of %d elements", sl)
+	}
+	// a string that provably ends in the newline it was read up to (or had one appended) is not empty
+	if n == 1 && endsWithNewline(x, p) {
+		return true, "ends in a newline, so it is not empty"
+	}
+	if x.Op == "cat" {
+		lit := int64(0)
+		for _, a := range x.A {
+			if a.Op == "str" {
+				lit += int64(len(a.S))
+			}
+		}
+		if lit >= n {
+			return true, fmt.Sprintf("concatenation with %d literal bytes", lit)
+		}
 	}
 	// explicit tests on len(x)
 	for _, cd := range p.Conds {
